@@ -245,3 +245,10 @@ def run(tier, seed):
                        "tolerances 1e-11 (fit), 1e-10 (derivatives, Laplace): observed worst values are in evidence",
                        "limit clauses: order of the difference estimated from two step sizes; medium-vs-general obliquity under joint scaling of (e, obliquity) because the medium variants are joint expansions (at fixed e their difference has I e^3 terms by design): >= 2.6 required, 4 observed; low-e vs medium-e and synchronous: >= 1.7 required, 2 observed"]
     return ck.finish()
+
+
+def replay(path):
+    import json
+    d = json.load(open(path))
+    print(json.dumps(d, indent=1)[:4000])
+    return 1
